@@ -3374,6 +3374,21 @@ impl BytecodeVM {
                     if let ExoticObject::PendingOrder { id, .. } = &obj_ref.exotic {
                         let order_id = crate::OrderId(*id);
                         drop(obj_ref);
+                        // The host may have answered already (orders issued in a batch and
+                        // awaited later): take the answer instead of suspending with nothing
+                        // left for the host to do
+                        match interp.order_responses.remove(&order_id) {
+                            Some(Ok(response)) => {
+                                self.set_reg(dst, response.value().clone());
+                                return Ok(OpResult::Continue);
+                            }
+                            Some(Err(error)) => {
+                                let message = JsValue::String(JsString::from(error.to_string()));
+                                let guarded = Guarded::from_value(message, &interp.heap);
+                                return Err(JsError::thrown(guarded));
+                            }
+                            None => {}
+                        }
                         return Ok(OpResult::SuspendForOrder {
                             order_id,
                             resume_register: dst,
